@@ -99,29 +99,25 @@ theorem mergeSmallDims_bridge (s : List Nat) (m : Nat) :
 
 /-! ### _precond_dim, _should_compress, should_precondition_dims -/
 
+/- The two proofs below do not follow the branch structure of the generated text: they normalise the Boolean
+tests, split every `if` of both sides and leave linear integer arithmetic to `omega`.  A rewrite of the source
+that computes the same function (e.g. `>=` -> `>` in `_precond_dim`, whose two branches agree at equality) keeps
+them valid. -/
+set_option linter.unusedSimpArgs false in
 theorem precondDim_bridge (c : Int) (d : Nat) :
     Gen.precondDim c (d : Int) = ((Shapes.precondDim c.natAbs d : Nat) : Int) := by
   unfold Gen.precondDim Shapes.precondDim
-  by_cases h0 : c = 0
-  · simp [h0]
-  · have h0' : c.natAbs ≠ 0 := by omega
-    by_cases h1 : c.natAbs + 2 ≥ d
-    · have : ((c.natAbs : Int) + 2 ≥ (d : Int)) := by omega
-      simp [h0, h0', h1, this]
-    · have : ¬ ((c.natAbs : Int) + 2 ≥ (d : Int)) := by omega
-      simp [h0, h0', h1, this]
+  simp only [Bool.not_eq_true', decide_eq_true_eq, decide_eq_false_iff_not, Bool.and_eq_true, Bool.or_eq_true]
+  repeat' split
+  all_goals omega
 
+set_option linter.unusedSimpArgs false in
 theorem shouldCompress_bridge (c : Int) (d : Nat) :
     Gen.shouldCompress c (d : Int) = Shapes.shouldCompress c.natAbs d := by
   unfold Gen.shouldCompress Shapes.shouldCompress
-  by_cases h0 : c = 0
-  · simp [h0]
-  · have h0' : c.natAbs ≠ 0 := by omega
-    by_cases h1 : c.natAbs + 2 < d
-    · have : ((c.natAbs : Int) + 2 < (d : Int)) := by omega
-      simp [h0, h0', h1, this]
-    · have : ¬ ((c.natAbs : Int) + 2 < (d : Int)) := by omega
-      simp [h0, h1, this]
+  rw [Bool.eq_iff_iff]
+  simp only [Bool.and_eq_true, Bool.or_eq_true, decide_eq_true_eq, bne_iff_ne, ne_eq]
+  omega
 
 /-! should_precondition_dims -/
 def ptypeCode : Shapes.PType → Int
